@@ -22,7 +22,11 @@ LEVEL_TEXT = ('Binding lemma: for each signature shape (hidden parameters in '
               'payload. Keyword spellings: every registered parameter\'s '
               'alias is the convention-translated name, or an explicit alias '
               'that the docstring documents. call(): function vs method '
-              'kind predicate (runner.call contract).')
+              'kind predicate (runner.call contract); registration-time '
+              'kind flags: an explicit function= / method= argument (True '
+              'or False) overrides the decorators, None keeps them, for all '
+              '9 combinations x symbolic decorator flags '
+              '(get_function_definition contracts).')
 LEVEL_NOTE = ('Shape family is finite (7 signatures x 15 call shapes); '
               'within a shape everything is symbolic. The convention '
               'translation itself (regex sub) and inspect.getfullargspec '
@@ -125,6 +129,8 @@ def units(ctx):
            for c in specs.delegate_contracts(ctx.tier)]
     us += [contract_unit(c, world_setup=specs.setup)
            for c in specs.clone_contracts()]
+    us += [contract_unit(c, world_setup=specs.setup_definition)
+           for c in specs.definition_contracts()]
     us += [contract_unit(c, world_setup=runner.setup)
            for c in runner.translate_contracts()]
     us += [contract_unit(c, world_setup=runner.setup_call)
